@@ -117,7 +117,7 @@ class Builder:
         self.I.invoke(f, cg, [])
         return cg
 
-    def emit(self, items, start_low2, sym='E'):
+    def emit(self, items, start_low2, sym='E', concrete_start=None):
         """Interpret the loop body of emitProgramBin for the directives in order from an abstract running offset.
         Returns (bytes emitted per directive, end offset value, symbols recorded)."""
         emit = self.idx.func('hexasm::CodeGen::emitProgramBin')
@@ -134,6 +134,8 @@ class Builder:
         oid = offs[0]['id']
         bits = [start_low2 & 1, (start_low2 >> 1) & 1] + [None] * 20 + [0] * 10
         env['locals'][oid] = IV(32, True, start_low2, (1 << 22) + start_low2, bits, None, ({sym: 1}, 0))
+        if concrete_start is not None:
+            env['locals'][oid] = const(32, True, concrete_start)
         per = []
         self.state['symbols'] = []
         for d in items:
@@ -438,6 +440,40 @@ def rule_absolute_after_growth(rep, idx, rid='R3g'):
                 rep.add(rid, key, ok, where, ('rejected with %s' % thrown) if thrown else
                         'x ends up at byte %d (not word aligned) after the branch in front of it grew, yet the reference is accepted with the '
                         'truncated word address %r' % (final, ins.fields.get('labelValue')))
+
+
+def rule_data_after_growth(rep, idx, rid='R3d'):
+    rep.rule(rid, 'a data word behind a reference that has to grow is emitted where the final layout puts it: in  k x OPR / BR far / x: / '
+             'DATA / block(G) / far:  the branch grows by one byte after the first pass, so the gap in front of the word changes between '
+             'passes; the image (emitted from byte 0) must hold the word at the final value of x, on a 4-byte boundary, for k = 0..3', floor=4)
+    where = pos(idx.func('hexasm::CodeGen::emitProgramBin').node) + ' hexasm::CodeGen::emitProgramBin'
+    for k in range(4):
+        B = Builder(idx)
+        far, x = B.label('far'), B.label('x')
+        br, d = B.ref('BR', 'far'), B.data()
+        head = [B.opr('ADD') for _ in range(k)] + [br, x, d]
+        prog = head + [B.pad('G', 20, 200, None, 1, 'input'), far]
+        key = 'k=%d' % k
+        try:
+            B.layout(prog)
+            sz = B.I.invoke(B.I.resolve_method(br, 'getSize', None), br, [])
+            lv = x.fields['labelValue']
+            if not (isinstance(sz, IV) and sz.concrete() and sz.lo == 2 and isinstance(lv, IV) and lv.concrete()):
+                rep.undecided(rid, key, 'template precondition not met (branch size %r, label at %r): the template no longer exercises growth' % (sz, lv), where)
+                continue
+            per, end, _ = B.emit(head, 0, concrete_start=0)
+        except (NeedSplit, AnalysisBroken) as e:
+            rep.undecided(rid, key, 'layout or emission not decided on the gap class: %s' % e, where)
+            continue
+        except Thrown as e:
+            rep.add(rid, key, False, where, 'a valid program is not assembled: %s' % e.what)
+            continue
+        before = sum(sum(ev) for ev in per[:-1])
+        dbytes = sum(per[-1])
+        word_at = before + dbytes - 4
+        want = (k + 2 + 3) & ~3
+        ok = lv.lo == want and word_at == want
+        rep.add(rid, key, ok, where, 'x = %d, the word is written at byte %d (%d bytes of padding), expected %d' % (lv.lo, word_at, dbytes - 4, want))
 
 
 def _is_repo_error(idx, t):
@@ -1121,4 +1157,5 @@ def run(rep, tier):
     rule_relative(rep, idx, tier)
     rule_oversized(rep, idx)
     rule_absolute_after_growth(rep, idx)
+    rule_data_after_growth(rep, idx)
     rule_termination(rep, idx)
